@@ -6,7 +6,7 @@ from props.asm_common import family_cases, oracle
 PID = "C13"
 LEAN_TARGETS = ["EtkVerif.Props.C13"]
 RULE = ("[thorough adds EVERY program of up to 4 statements over a 9-statement alphabet: two labels, %push / push1 over them, an operand valid only at one distance, a 253-byte filler, a macro with a local label used twice — 7380 programs] [family `provisional`: fixed-width operands over backward labels whose distance grows after they were read, in/out of range at exactly one of the two distances] well-formed programs of every generator family (layout, operators, ranges, instruction macros, expression macros; backward "
-        "and forward references, also mixed within one operand) and the same programs with one injected fault out of 14 kinds "
+        "and forward references, also mixed within one operand) and the same programs with one injected fault out of 18 kinds "
         "(undefined label bare / in a compound operand, duplicate label, unknown instruction / expression macro, duplicate macro "
         "name across kinds, arity mismatch, division by zero, too-large and negative operands, unbound variable, self-recursive "
         "instruction / expression macro) at a random position; the reference computes the full fault set on the hygienically "
@@ -70,10 +70,10 @@ MANIFEST = {
             "scope defining n twice; UndeclaredExpressionMacro n only when the reporting scope declares no expression macro n; "
             "MacroArgumentCount n only for an instruction macro n of the reporting scope; MacroRecursionLimit n only for a declared macro; DivisionByZero only if the scope's text contains a division; DuplicateLabel l only if l is written twice (top level or one macro body) or is a mangled name. USE-SITE forms: the same scope "
             "contains the call / invocation (with a different argument count) / `$v` in its text and lacks (has) the definition. The repaired defect D28 (too few arguments for an expression macro) is recorded as C13_missing_argument_rejected. Simulation invariant by induction over fuel, for all programs and suffix supplies.",
-    "note": "Trusted: Lean kernel; Asm/Assemble.lean tied to asm.rs (as repaired) by the differential run on well-formed programs and 14 "
+    "note": "Trusted: Lean kernel; Asm/Assemble.lean tied to asm.rs (as repaired) by the differential run on well-formed programs and 18 "
             "fault kinds at random positions; Asm/Spec.lean is my formalisation of 'well formed'; which error is reported first when "
-            "several faults coexist is not specified (any is accepted; the remaining kinds — duplicate label, arity, variable, range / "
-            "division errors — are matched against the Python fault set, not proved); parsing is covered by C14_parse / C03 / C02 for "
+            "several faults coexist is not specified (any is accepted; nine of the eleven error kinds have provenance theorems, the two range kinds "
+            "are matched against the Python fault set and have the converse theorems of C09); parsing is covered by C14_parse / C03 / C02 for "
             "their families and otherwise tied.",
     "technique": "Lean 4 refinement proof (implementation model = specification, iff) + differential correspondence + Python fault-set oracle",
 }
